@@ -74,7 +74,10 @@ class _JBase:
             path = os.path.join(self.spool, f"{self.call_id}.{os.getpid()}.{threading.get_ident()}.log")
             with open(path, "a") as f:
                 f.write(f"S\t{key!r}\t{os.getpid()}\t{threading.get_ident()}\t{time.monotonic():.6f}\n")
-        d = self.delays.get(key, 0.0) if self.delays else 0.0
+        try:
+            d = self.delays.get(key, 0.0) if self.delays else 0.0
+        except TypeError:  # unhashable key: the executor handed us a whole iterable instead of one element
+            d = 0.0
         if d > 0:
             time.sleep(d)
         try:
